@@ -89,6 +89,57 @@ theorem commandStage_step (rh : HookFn) (hrh : HookOK rh) (w : W) (cg : Oid) (li
 theorem useConn_valid (w : W) (o : Oid) (id : Nat) (inv : Inv w) (h : w.inter o = some id) : useConn w id = w :=
   useConn_live w id (inv.live o id h)
 
+theorem promptStage_step (w : W) (cg : Oid) (id : Nat) : Step w (promptStage w cg id) := by
+  unfold promptStage
+  split
+  · exact Step.refl w
+  · split
+    · exact Step.refl w
+    · exact addOut_step _ _ _
+
+theorem plainCommand_step (rh : HookFn) (hrh : HookOK rh) (w : W) (cg : Oid) (id : Nat) (line : String) :
+    Step w (plainCommand rh w cg id line).1 := by
+  unfold plainCommand
+  simp only []
+  intro inv
+  generalize hasPIOf w id = b
+  have s1 := inputStage_step rh hrh w cg line b
+  split
+  · exact s1 inv
+  · split
+    · exact s1 inv
+    · have s2 := Step.trans s1 (commandStage_step rh hrh _ cg line)
+      split
+      · exact s2 inv
+      · split
+        · exact s2 inv
+        · rename_i hv2
+          obtain ⟨inv2, r2⟩ := s2 inv
+          have hval : (commandStage rh (inputStage rh w cg line b).1 cg line).1.inter cg = some id := by
+            simpa using hv2
+          rw [useConn_valid _ cg id inv2 hval]
+          obtain ⟨inv3, r3⟩ := promptStage_step _ cg id inv2
+          exact ⟨inv3, r2.trans r3⟩
+
+theorem inputToCommand_step (rh : HookFn) (hrh : HookOK rh) (w : W) (cg : Oid) (id : Nat) (line tag : String) :
+    Step w (inputToCommand rh w cg id line tag).1 := by
+  unfold inputToCommand
+  simp only []
+  intro inv
+  have s1 : Step w (rh (emit (mapConn w id clearInputTo) (.tIt cg tag line)) cg (.it tag)).1 :=
+    Step.trans (Step.trans (mapConn_step w id clearInputTo (fun _ => rfl) (fun _ h => h)) (emit_same _ _).step) (hrh _ _ _)
+  split
+  · exact s1 inv
+  · split
+    · exact s1 inv
+    · rename_i hv
+      obtain ⟨inv2, r2⟩ := s1 inv
+      have hval : (rh (emit (mapConn w id clearInputTo) (.tIt cg tag line)) cg (.it tag)).1.inter cg = some id := by
+        simpa using hv
+      rw [useConn_valid _ cg id inv2 hval]
+      obtain ⟨inv3, r3⟩ := promptStage_step _ cg id inv2
+      exact ⟨inv3, r2.trans r3⟩
+
 theorem serveCommand_step (rh : HookFn) (hrh : HookOK rh) (w : W) (c0 : Conn) :
     Step w (serveCommand rh w c0).1 := by
   unfold serveCommand
@@ -102,27 +153,9 @@ theorem serveCommand_step (rh : HookFn) (hrh : HookOK rh) (w : W) (c0 : Conn) :
       have hu : useConn w id = w := useConn_valid w c0.ob id inv hid
       rw [hu]
       have s0 : Step w (updateLoadAv w) := (updateLoadAv_same w).step
-      generalize hasPIOf (updateLoadAv w) id = b
-      have s1 := Step.trans s0 (inputStage_step rh hrh (updateLoadAv w) c0.ob (c0.cmds.headD "") b)
       split
-      · exact s1 inv
-      · split
-        · exact s1 inv
-        · have s2 := Step.trans s1 (commandStage_step rh hrh _ c0.ob (c0.cmds.headD ""))
-          split
-          · exact s2 inv
-          · split
-            · exact s2 inv
-            · rename_i hv2
-              obtain ⟨inv2, r2⟩ := s2 inv
-              have hval : (commandStage rh (inputStage rh (updateLoadAv w) c0.ob (c0.cmds.headD "") b).1
-                  c0.ob (c0.cmds.headD "")).1.inter c0.ob = some id := by
-                simpa using hv2
-              rw [useConn_valid _ c0.ob id inv2 hval]
-              split
-              · exact ⟨inv2, r2⟩
-              · obtain ⟨inv3, r3⟩ := addOut_step _ c0.ob ">_" inv2
-                exact ⟨inv3, r2.trans r3⟩
+      · exact (Step.trans s0 (inputToCommand_step rh hrh _ _ _ _ _)) inv
+      · exact (Step.trans s0 (plainCommand_step rh hrh _ _ _ _)) inv
 
 theorem processUserCommand_step (rh : HookFn) (hrh : HookOK rh) (w : W) :
     Step w (processUserCommand rh w).1 := by
